@@ -166,7 +166,7 @@ class JsonSchemaParser:
 
         if not type:
             # structural keywords without an explicit type
-            if 'properties' in schema or 'required' in schema:
+            if 'properties' in schema or 'required' in schema or 'dependentRequired' in schema:
                 type = 'object'
             elif 'items' in schema or 'prefixItems' in schema:
                 type = 'array'
@@ -258,6 +258,15 @@ class JsonSchemaParser:
         dependent_required = schema.get('dependentRequired')
         pattern_properties = schema.get("patternProperties")  # not supported now
 
+        if dependent_required:
+            # like a required name: a name that only dependentRequired mentions is a property, of any type
+            # undeclared properties may have (of no type at all if there must be none)
+            properties = dict(properties)
+            undeclared = additional_properties if isinstance(additional_properties, dict) else \
+                {'enum': []} if additional_properties is False else {}
+            for key, deps in dependent_required.items():
+                for dep in (key, *deps):
+                    properties.setdefault(dep, undeclared)
         if min_properties and unprovided(additional_properties) and properties:
             # undeclared properties are allowed and count: keep them, so that the result has what was counted
             additional_properties = True
